@@ -25,8 +25,11 @@ static void c07_run(vf_case *c)
     g.explicit_zeros = 0;
     int ilu = rng_bool(r, 0.3);
     if (ilu) g.values = rng_bool(r, 0.5) ? VAL_UNIF : VAL_DIAGDOM;
+    int tall = !ilu && rng_bool(r, 0.2);      /* ?gstrf called directly accepts m > n: the m-long work arrays then differ from the n-long ones */
+    if (tall) g.m = g.n + rng_int(r, 1, 1 + g.n / 2);
     vf_mat A; gen_matrix(r, P, &g, &A);
     gen_run_opts(r, &o, 0);
+    if (tall && o.opt.ColPerm == MMD_AT_PLUS_A) o.opt.ColPerm = MMD_ATA;   /* A'+A needs a square matrix (documented) */
     gen_tuning(r, 1);
     int n = A.n;
     superlu_options_t opt;
@@ -34,7 +37,7 @@ static void c07_run(vf_case *c)
     else { set_default_options(&opt); opt.ColPerm = o.opt.ColPerm; opt.DiagPivotThresh = o.opt.DiagPivotThresh; opt.SymmetricMode = o.opt.SymmetricMode; opt.PrintStat = NO; run_opts_str(&o, buf, sizeof buf); }
     int *mypc = malloc(sizeof(int) * (size_t)(n + 1)); rng_perm(r, mypc, n);
     char gs[200]; gen_spec_str(&g, gs, sizeof gs); vf_desc(c, "%s %s; %s; ", ilu ? "gsitrf" : "gstrf", gs, buf); tuning_str(buf, sizeof buf); vf_desc(c, "%s", buf);
-    vf_tag(c, "prec=%c", P->letter); vf_tag(c, "%s", ilu ? "ilu" : "complete");
+    vf_tag(c, "prec=%c", P->letter); vf_tag(c, "%s", ilu ? "ilu" : "complete"); vf_tag(c, "%s", tall ? "tall" : "square");
     if (ilu) vf_note(c, "ilu");
     if (sprank(&A) < n) { vf_note(c, "structsing"); vf_tag(c, "structsing"); }
     vf_sig_u64(c, mat_pattern_hash(&A)); vf_sig_u64(c, (uint64_t)ilu * 16 + (uint64_t)opt.ColPerm);
@@ -43,7 +46,7 @@ static void c07_run(vf_case *c)
     fact_run R0; fact_do(P, &A, &opt, mypc, NULL, 0, ilu, &R0);
     int ok0 = ilu ? (R0.info >= 0 && R0.info <= n) : R0.info == 0;
     if (!ok0) { vf_tag(c, "reference-not-successful"); fact_free(&R0); free(mypc); mat_free(&A); vf_check_ledger(c, "after reference"); return; }
-    if (structure_ok(P, &R0.L, &R0.U, n, n, ilu, why, sizeof why)) { vf_viol(c, "reference-malformed", "%s", why); fact_free(&R0); free(mypc); mat_free(&A); return; }
+    if (structure_ok(P, &R0.L, &R0.U, A.m, n, ilu, why, sizeof why)) { vf_viol(c, "reference-malformed", "%s", why); fact_free(&R0); free(mypc); mat_free(&A); return; }
     uint64_t h0 = run_hash(P, &R0); int_t info0 = R0.info; int exp0 = R0.stat.expansions;
     check_query(c, P, &R0, ilu, "reference");
     int compared = 0, maxexp = exp0, minexp = exp0;
@@ -60,7 +63,7 @@ static void c07_run(vf_case *c)
     }
     /* (2) caller workspace: geometric ladder of lengths down to the first failure, both alignments, two fill estimates */
     {
-        size_t G = generous_lwork(P, n, A.nnz); unsigned char *buf0 = vf_ws_alloc(c, G + 64);
+        size_t G = generous_lwork(P, A.m, A.nnz); unsigned char *buf0 = vf_ws_alloc(c, G + 64);
         int nws = 0, nshort = 0;
         for (int pass = 0; pass < 2 && c->nmore < 3; pass++) {
             int f = pass == 0 ? 30 : rng_int(r, 1, 3); vf_ienv_set(6, f);
